@@ -213,7 +213,7 @@ def spec_func(modname: str, fname: str, in_module: str = "pypika_tortoise.querie
     return _SPEC_CACHE[key]
 
 
-def eval_spec(ex, state, modname, fname, args, in_module="pypika_tortoise.queries"):
+def eval_spec(ex, state, modname, fname, args, in_module="pypika_tortoise.queries", kwargs=None):
     """evaluate a specification function symbolically on `state`; returns the (merged) result value"""
     fi = spec_func(modname, fname, in_module)
     saved = ex.st
@@ -223,7 +223,7 @@ def eval_spec(ex, state, modname, fname, args, in_module="pypika_tortoise.querie
     saved_deadline = ex.deadline
     ex.deadline = None
     try:
-        outs = ex.explore(lambda: ex.call_body(fi, list(args), {}), start=ex.st)
+        outs = ex.explore(lambda: ex.call_body(fi, list(args), dict(kwargs or {})), start=ex.st)
         vals = [(o.state.pc[len(state.pc):], o.value) for o in outs if o.status == "normal"]
         if len(vals) == 1:
             return vals[0][1]
